@@ -184,6 +184,14 @@ class Engine:
                 return h.meta['len'] > 0
             if h.kind == 'sheap':
                 return self.sheap_nonempty(h, st)
+            if h.kind == 'sset':
+                b = h.meta.get('nonempty')
+                if b is None:
+                    b = z3.Bool(fresh_name('set_nonempty'))
+                    kk = z3.Const('k__', h.meta['present'].domain())
+                    st.assume(z3.Implies(z3.Not(b), z3.ForAll([kk], z3.Not(z3.Select(h.meta['present'], kk)))))
+                    h.meta['nonempty'] = b
+                return b
             if h.kind == 'smap':
                 raise EngineError('truthiness of symbolic map')
             if h.kind == 'obj':
